@@ -39,7 +39,7 @@ def gen(tier, seed):
         specs.append((end + ":" + p.__name__, feat, src, [], full))
         if end == "quit":
             specs.append(("fresh:" + p.__name__, feat, src, [], []))
-    for p in dbggen.PROGRAMS:
+    for p in dbggen.PROGRAMS + dbggen.PROGRAMS_LATER:
         for r0 in (0, 1):
             src, feat = p(random.Random(3))
             pre = [("move", ("reg", 0), 0)] if r0 else []
@@ -49,12 +49,41 @@ def gen(tier, seed):
     return rnd, specs, fresh
 
 
+def store_loops(counts):
+    """A program that stores into `cell` exactly sum(counts) times (each count 1..65536) and then reaches `done`."""
+    lines, fills = [], []
+    for i, n in enumerate(counts):
+        lines += [f"        ld r2 n{i}",
+                  f"l{i}      st r2 cell", "        add r2 r2 #-1", f"        brnp l{i}"]
+        fills.append(f"n{i}      .fill x{n & 0xFFFF:04X}")
+    return "\n".join(lines + ["done    add r3 r3 #1", "        halt", "cell    .fill x1234"] + fills) + "\n"
+
+
+def many_stores(tier):
+    """Sessions in which the program stores a given NUMBER of times before `reset` (what a change counter of 8, 16 or 17 bits
+    would see as 'nothing stored'): 255 / 256 / 257, 65,535 / 65,536 / 65,537, 131,072 stores, then reset and a look at everything."""
+    sets = [[255], [256], [257], [65535], [65536], [65536, 1], [65536, 65536]]
+    if tier == "quick":
+        sets = [[256], [65535], [65536], [65536, 65536]]
+    specs = []
+    for counts in sets:
+        src = store_loops(counts)
+        tag = "stores-%d" % sum(counts)
+        specs.append((tag, 0, src, [], [("breakadd", ("label", "done", 0)), ("continue",), ("reset",), ("print", ("mem", ("label", "cell", 0))), ("registers",), ("exit",)]))
+        specs.append((tag, 0, src, [], [("breakadd", ("label", "done", 0)), ("continue",), ("move", ("mem", ("label", "cell", 0)), 0x7777), ("reset",), ("reset",), ("registers",), ("exit",)]))
+    return specs
+
+
 def correspondence(ctx, violations, known_hits):
     rnd, specs, fresh = gen(ctx.tier, ctx.seed)
     cases, tags = dbgcommon.make_cases(rnd, specs)
+    big_cases, big_tags = dbgcommon.make_cases(rnd, many_stores(ctx.tier), fuel=1000000)
     profiles = ("debug",) if ctx.tier == "quick" else ("debug", "release")
     r = dbgcommon.run_dbg_cases(ctx, cases, tags, violations, profiles, aux=AUX,
                                 note="model: reset = the saved initial state, which nothing ever writes (C12 theorems)")
+    rb = dbgcommon.run_dbg_cases(ctx, big_cases, big_tags, violations, ("debug",), aux=AUX, text_too=False,
+                                 note="the program stores 256 / 65,535 / 65,536 / 131,072 times before the reset; model: reset = the saved initial state")
+    r["evaluations"] += rb["evaluations"]; r["mismatches"] += rb["mismatches"]
     ri, _ = r["results"]["debug"]
     direct, bad = 0, 0
     for a, b in fresh:
@@ -76,7 +105,7 @@ def correspondence(ctx, violations, known_hits):
         "random histories of executing and mutating commands (move to registers/memory incl. the program's own code, below the origin, "
         "the stack area; goto; eval; step/continue; earlier resets) followed by reset, ended by (a) `registers; exit` — full machine "
         "snapshot incl. all 65,536 words, (b) `quit` — a complete run after the reset, compared with a fresh run of the same program, "
-        "(c) mutate-reset-reset-exit", profiles, fresh_run_comparisons=direct, fresh_run_mismatches=bad, real_binary_without_hooks=real)
+        "(c) mutate-reset-reset-exit; and programs that store exactly 256 / 65,535 / 65,536 / 131,072 (thorough: also 255, 257, 65,537) times before the reset", profiles, fresh_run_comparisons=direct, fresh_run_mismatches=bad, real_binary_without_hooks=real)
 
 
 def replay(ctx, payload):
